@@ -657,6 +657,14 @@ def r11(F, R):
                 from_param = any(n[0] in ("arg", "upvar") for n in vt_walk(rv)) and not any(
                     n[0] == "call" and str(n[1]).endswith("AcceptanceRateCollector::new") for n in vt_walk(rv))
                 made_here = any(strip_generics(tt["callee"].get("path", "")).endswith("AcceptanceRateCollector::new") and tt["dest"]["l"] == root for _b2, tt in x.calls())
+                if from_param and not made_here and x.parent.get("trait") and path_ends(x.parent["trait"], "AdaptStrategy") and x.fn_name == "adapt":
+                    # every draw refreshes the statistics: the call is on every path of adapt() that returns Ok (warm-up or not)
+                    from .c05 import agg_blocks
+                    oks_ = [o[0] for o in agg_blocks(x, "Result", "Ok")]
+                    if oks_ and not all(x.dominates(bb, o) for o in oks_):
+                        R.bad("C03-R11", key + ":every-draw", site, "adapt() can return Ok without having refreshed the per-draw statistics (the call does not dominate "
+                              "every Ok return): those draws report the step count and acceptance of an earlier trajectory")
+                        continue
                 if from_param and not made_here:
                     R.ok("C03-R11", key, site, "the statistics are fed from a collector the caller received (%s)" % vt_str(rv)[:80])
                 else:
